@@ -1026,3 +1026,61 @@ func ruleLDR12(c *Ctx) {
 		c.Check(bad == "", n+".GetSnapshot / no child rendered twice on one path", p.Pos(fn.Pos()), fmt.Sprintf("%d child renderings, pairwise on exclusive paths or of different children", len(sites)), bad+": the snapshot doubles with every nesting level of this form, so a rule text of a few dozen bytes makes the loader allocate gigabytes")
 	}
 }
+
+func init() {
+	register("LDR-13", "the rule text that is lexed is byte for byte what the resource delivered", 1, ruleLDR13)
+}
+
+// LDR-13: string literals keep every raw character (OPT-5), so any normalisation of the text before lexing (line ends,
+// BOM, trimming, case) changes what a literal denotes and what the grammar sees.
+func ruleLDR13(c *Ctx) {
+	p := c.P
+	fn := p.Method("builder", "RuleBuilder", "BuildRuleFromResource")
+	if fn == nil {
+		c.AnchorLost("BuildRuleFromResource")
+		return
+	}
+	n := 0
+	for _, ci := range callsIn(fn) {
+		name := calleeName(ci)
+		if !strings.HasSuffix(name, "NewInputStream") {
+			continue
+		}
+		n++
+		arg := ci.Common().Args[0]
+		// allowed: string(data) where data is the first result of resource.Load()
+		v := arg
+		okChain := true
+		why := ""
+		for depth := 0; depth < 6; depth++ {
+			v = unspill(v)
+			switch x := v.(type) {
+			case *ssa.Convert:
+				v = x.X
+				continue
+			case *ssa.ChangeType:
+				v = x.X
+				continue
+			case *ssa.Extract:
+				if call, ok := x.Tuple.(*ssa.Call); ok && x.Index == 0 && call.Call.IsInvoke() && call.Call.Method.Name() == "Load" {
+					v = nil
+				} else {
+					okChain, why = false, "the text does not come from resource.Load()"
+				}
+			case *ssa.Call:
+				okChain, why = false, "the text passes through "+calleeName(x)+" before it is lexed"
+			case *ssa.Phi:
+				okChain, why = false, "the text lexed is chosen among several values"
+			case *ssa.Slice:
+				okChain, why = false, "only a part of the loaded bytes is lexed"
+			default:
+				okChain, why = false, fmt.Sprintf("unrecognised producer %T", v)
+			}
+			break
+		}
+		c.Check(okChain, "BuildRuleFromResource / lexer input is string(resource.Load())", p.InstrPos(ci.(ssa.Instruction)), "no transformation between Load and the lexer", why+": a raw character inside a string literal (a CR before LF, a BOM, trailing blanks) is altered, so the literal denotes another string than the one written")
+	}
+	if n == 0 {
+		c.Fail("BuildRuleFromResource / lexer input", p.Pos(fn.Pos()), "no antlr.NewInputStream call (anchor lost)")
+	}
+}
